@@ -443,10 +443,13 @@ func c06RunConcurrent(r *verifkit.Run, s c06Script, desc string, stamps bool) (o
 				op := s.Clients[c][k]
 				ch.cur[c] = &op.Ans
 				o := c06Obs{Op: op, Client: c}
-				if (c+k)%2 == 1 {
+				o.Call = stamp()
+				// yielding between the call stamp and the invocation widens
+				// the operation's interval (still a superset of its real
+				// execution), so intervals overlap even on a busy machine
+				if (c+k)%3 != 2 {
 					runtime.Gosched()
 				}
-				o.Call = stamp()
 				var res bool
 				var err error
 				if r.Guard("conc:", desc, func() { res, err = d.NotifyRelayEntryStarted(op.Block, op.Prev) }) {
@@ -583,7 +586,7 @@ func TestVerif_C06_ConcurrentRace(t *testing.T) {
 	defer r.Finish()
 	r.SetRule("the scripts of the concurrent monitor, each run 3 times under the Go race detector with per-goroutine result slots only; stamp-free consequences of linearizability checked after joining. non-trivial = two calls of different goroutines overlapped according to the monotonic clock (evidence only)")
 	r.Assume("request start blocks are >= 1")
-	n := r.N(1000, 15000)
+	n := r.N(500, 15000)
 	reps := r.N(3, 10)
 	for i := 0; i < n; i++ {
 		rng := r.SubRand("conc", i)
